@@ -31,76 +31,25 @@ theorem splitURL_build (h pl : List Char) (hc : ',' ∉ h) :
   simp only [hd]
   rw [dropWhile_append_stop_all _ h ',' pl hall (by simp), takeWhile_append_stop _ h ',' pl hall (by simp)]
 
-/-! ## the `text/plain` step under the guard -/
+/-! ## the `text/plain` step -/
 
-theorem tp_step (u head p x : List Char) (hf : HeadFacts head x) (hs : S.splitURL u = some (head, p))
-    (hg : S.trigTextPlainPrefix u = false) :
-    stripTextPlain (finishMt x) = finishMt x ∨
-    ∃ P R, finishMt x = P ++ R ∧ P.map toLower = textPlain ∧ (R = [] ∨ ∃ R', R = ';' :: R') ∧
-      stripTextPlain (finishMt x) = R := by
-  have hdef : ∀ y, y = textPlain → ∃ P R, y = P ++ R ∧ P.map toLower = textPlain ∧ (R = [] ∨ ∃ R', R = ';' :: R') ∧
-      stripTextPlain y = R := by
-    intro y hy
-    exact ⟨textPlain, [], by simp [hy], by decide, Or.inl rfl, by rw [hy]; decide⟩
-  unfold finishMt
+theorem tp_step (y : List Char) :
+    stripTextPlain y = y ∨
+    ∃ P R, y = P ++ R ∧ P.map toLower = textPlain ∧ (R = [] ∨ ∃ R', R = ';' :: R') ∧ stripTextPlain y = R := by
+  unfold stripTextPlain
   split
-  · right; exact hdef _ rfl
-  · rename_i c r
-    split
-    · right; exact hdef _ rfl
-    · rename_i hcs
-      generalize hx : c :: r = x at *
-      by_cases hcond : 10 ≤ x.length ∧ equalFold (x.take 10) textPlain = true
-      · right
-        have hP : (x.take 10).map toLower = textPlain := by
-          have := hcond.2; simpa [equalFold] using this
-        refine ⟨x.take 10, x.drop 10, (List.take_append_drop 10 x).symm, hP, ?_, by simp [stripTextPlain, hcond]⟩
-        -- shape of the rest, from the first item and the guard
-        obtain ⟨tl, hxt, htl⟩ := hf.first
-        unfold S.trigTextPlainPrefix at hg
-        rw [hs] at hg
-        have hnd : (fun c : Char => !(c = '=' || c = ';')) = notDelimB := rfl
-        simp only [hnd, trim_eq, lower_eq] at hg
-        generalize ht : trimWs (head.takeWhile notDelimB) = t at *
-        have hb : textPlain = "text/plain".toList := rfl
-        rcases htl with rfl | ⟨d, tl', rfl, hd⟩
-        · simp only [List.append_nil] at hxt
-          subst hxt
-          rw [← hb, hP] at hg
-          simp only [beq_self_eq_true, decide_true, Bool.true_and, Bool.or_eq_false_iff, decide_eq_false_iff_not] at hg
-          left
-          apply List.drop_eq_nil_of_le
-          omega
-        · have hdd : d = '=' ∨ d = ';' := by
-            rw [drop_length_takeWhile] at hd
-            have := head_dropWhile_not _ _ _ hd
-            simp only [notDelimB, Bool.not_eq_false', Bool.or_eq_true, decide_eq_true_eq] at this
-            exact this
-          have hlen : 10 ≤ t.length := by
-            apply Classical.byContradiction
-            intro hlt
-            have hmem : d ∈ x.take 10 := by
-              rw [hxt, List.take_append, List.take_of_length_le (by omega)]
-              apply List.mem_append_right
-              have : 10 - t.length = (10 - t.length - 1) + 1 := by omega
-              rw [this]; simp
-            have : toLower d ∈ textPlain := by rw [← hP]; exact List.mem_map_of_mem hmem
-            rcases hdd with e | e <;> subst e <;> revert this <;> decide
-          have htk : x.take 10 = t.take 10 := by
-            rw [hxt, List.take_append_of_le_length hlen]
-          rw [← hb, ← htk, hP] at hg
-          simp only [beq_self_eq_true, decide_true, Bool.true_and, Bool.or_eq_false_iff, decide_eq_false_iff_not] at hg
-          have h10 : t.length = 10 := by omega
-          right
-          refine ⟨tl', ?_⟩
-          have hds : d = ';' := by
-            rcases hdd with e | e
-            · exfalso; apply hg.2; rw [hd, e]
-            · exact e
-          rw [hxt, List.drop_append_of_le_length (by omega), List.drop_of_length_le (by omega), hds]
-          rfl
-      · left
-        simp [stripTextPlain, hcond]
+  · rename_i h
+    right
+    refine ⟨y.take 10, y.drop 10, (List.take_append_drop 10 y).symm, by simpa [equalFold] using h.2.1, ?_, rfl⟩
+    cases hd : y.drop 10 with
+    | nil => left; rfl
+    | cons d t =>
+      right
+      have := h.2.2
+      rw [hd] at this
+      simp only [endOrSemi, decide_eq_true_eq] at this
+      exact ⟨t, by rw [this]⟩
+  · left; rfl
 
 theorem finish_norm (u head p x : List Char) (hf : HeadFacts head x) (hs : S.splitURL u = some (head, p))
     (hg : S.trigParamNoType u = false) : S.mtNorm (finishMt x) = S.mtNorm (S.splitMarker head).1 := by
@@ -125,8 +74,7 @@ theorem finish_norm (u head p x : List Char) (hf : HeadFacts head x) (hs : S.spl
     · exact hk
 
 /-- both stripping steps keep the normal form, keep later items from looking like the marker, add no comma -/
-theorem strip_facts (u head p x : List Char) (hf : HeadFacts head x) (hs : S.splitURL u = some (head, p))
-    (hg : S.trigTextPlainPrefix u = false) :
+theorem strip_facts (head x : List Char) (hf : HeadFacts head x) :
     S.mtNorm (stripCharset (stripTextPlain (finishMt x))) = S.mtNorm (finishMt x) ∧
     goodTail (stripCharset (stripTextPlain (finishMt x))) ∧
     ',' ∉ stripCharset (stripTextPlain (finishMt x)) := by
@@ -135,7 +83,7 @@ theorem strip_facts (u head p x : List Char) (hf : HeadFacts head x) (hs : S.spl
   -- text/plain step
   have hT : S.mtNorm (stripTextPlain (finishMt x)) = S.mtNorm (finishMt x) ∧
       goodTail (stripTextPlain (finishMt x)) ∧ ',' ∉ stripTextPlain (finishMt x) := by
-    rcases tp_step u head p x hf hs hg with h | ⟨P, R, he, hP, hR, hst⟩
+    rcases tp_step (finishMt x) with h | ⟨P, R, he, hP, hR, hst⟩
     · rw [h]; exact ⟨rfl, hy1, hy2⟩
     · rw [hst]
       refine ⟨?_, ?_, ?_⟩
@@ -171,8 +119,7 @@ theorem allBytes_payload (u head p : List Char) (hs : S.splitURL u = some (head,
 theorem preserves_core (sub : List Char → List Char → Option (List Char)) (u mt d : List Char)
     (hu : AllBytes u) (hsub : ∀ m x y, sub m x = some y → AllBytes y)
     (hr : S.rfcParse u = some (mt, d))
-    (g1 : S.trigPlus u = false) (g2 : S.trigParamNoType u = false) (g3 : S.trigB64Item u = false)
-    (g4 : S.trigTextPlainPrefix u = false) :
+    (g1 : S.trigPlus u = false) (g2 : S.trigParamNoType u = false) (g3 : S.trigB64Item u = false) :
     ∃ mtd, parseDataURI u = some (mtd, d) ∧ S.mtNorm mtd = S.mtNorm mt ∧
       (dataURI sub u = u ∨
        ∃ mt', S.rfcParse (dataURI sub u) = some (mt', (sub mtd d).getD d) ∧ S.mtNorm mt' = S.mtNorm mt) := by
@@ -231,7 +178,7 @@ theorem preserves_core (sub : List Char → List Char → Option (List Char)) (u
       cases hsd : sub (finishMt x) d with
       | none => exact hdb
       | some y => exact hsub _ _ _ hsd
-    obtain ⟨hsn, hsg, hsc⟩ := strip_facts u head p x hf hs g4
+    obtain ⟨hsn, hsg, hsc⟩ := strip_facts head x hf
     unfold dataURI
     simp only [hmodel]
     generalize (sub (finishMt x) d).getD d = d' at hd' ⊢
